@@ -73,25 +73,60 @@ func runInstrument(repo, out string) error {
 				return false
 			}
 			switch sel.Sel.Name {
-			case "Lock", "RLock": // (and right after an acquire: what a lock-order inversion needs)
+			case "Lock", "RLock", "TryLock", "Get", "Load", "LoadPointer", "LoadInt32", "LoadInt64", "LoadUint32", "LoadUint64", "Add", "AddInt32", "AddInt64", "Do":
+				// (and right after an acquire or an atomic read: what a lock-order inversion, a
+				// Load-then-Store that should have been a Swap, or a key/value pair read in two
+				// steps needs)
 				return true
 			case "Unlock", "RUnlock", "Put", "Store", "Swap", "CompareAndSwap", "StorePointer", "StoreInt32", "StoreInt64", "StoreUint32", "StoreUint64":
 				return true
 			}
 			return false
 		}
+		// has reports whether the node contains such a call outside nested blocks and literals
+		has := func(nd ast.Node) bool {
+			found := false
+			if nd == nil || nd == ast.Node(nil) {
+				return false
+			}
+			ast.Inspect(nd, func(c ast.Node) bool {
+				switch y := c.(type) {
+				case *ast.FuncLit, *ast.BlockStmt:
+					return false
+				case *ast.CallExpr:
+					if releases(y) {
+						found = true
+					}
+				}
+				return !found
+			})
+			return found
+		}
 		rewrite := func(list []ast.Stmt) []ast.Stmt {
 			var out []ast.Stmt
 			for _, st := range list {
 				switch x := st.(type) {
-				case *ast.ExprStmt:
+				case *ast.ExprStmt, *ast.AssignStmt, *ast.IncDecStmt, *ast.SendStmt, *ast.DeclStmt:
 					out = append(out, st)
-					if releases(x.X) {
+					if has(st) {
 						out = append(out, ucall())
 						touched = true
 						nu++
 					}
 					continue
+				case *ast.IfStmt:
+					if (x.Init != nil && has(x.Init)) || has(x.Cond) {
+						x.Body.List = append([]ast.Stmt{ucall()}, x.Body.List...)
+						out = append(out, st)
+						if eb, ok := x.Else.(*ast.BlockStmt); ok {
+							eb.List = append([]ast.Stmt{ucall()}, eb.List...)
+						} else if x.Else == nil {
+							out = append(out, ucall())
+						}
+						touched = true
+						nu++
+						continue
+					}
 				case *ast.DeferStmt:
 					if releases(x.Call) {
 						out = append(out, &ast.DeferStmt{Call: ucall().(*ast.ExprStmt).X.(*ast.CallExpr)})
